@@ -61,7 +61,7 @@ def harness(args, timeout=3600):
     return json.loads(last[-1]) if last else {}
 
 
-_TLC_ENV = {"JAVA_TOOL_OPTIONS": "-Xss1g -Dtlc2.tool.queue.IStateQueue=StateDeque"}
+_TLC_ENV = {"JAVA_TOOL_OPTIONS": "-Xss1g -Xmx3g -Dtlc2.tool.queue.IStateQueue=StateDeque"}
 
 
 def workdir(*parts):
@@ -84,7 +84,7 @@ def tlc_mc(module, cfg, tag, workers=4, timeout=1500, simulate=None, extra=None,
         cmd += extra
     cmd += [module + ".tla"]
     t = time.time()
-    rc, out = sh(cmd, cwd=SPEC, env={"JAVA_TOOL_OPTIONS": "-Xss512m"}, timeout=timeout + 60)
+    rc, out = sh(cmd, cwd=SPEC, env={"JAVA_TOOL_OPTIONS": "-Xss512m -Xmx12g"}, timeout=timeout + 60)
     res = {"module": module, "cfg": cfg, "rc": rc, "wall_s": round(time.time() - t, 1),
            "cmd": " ".join(cmd)}
     m = re.search(r"(\d[\d,]*) states generated, (\d[\d,]*) distinct states found", out)
